@@ -1768,3 +1768,126 @@ End C09.
 
 Lemma counted_votes_valid c x v vt b : SInv c x -> In (v, (vt, b)) (t_vc (tc_t x)) -> vc_good c (tc_t x) v vt b.
 Proof. intros I. exact (si_vc c x I v vt b). Qed.
+
+(* ====================================================================================================
+   C12 (field level): no input makes the term logic panic — every partial operation of the Go code
+   (leader index, prepareMessages[0], commitMessages[0]) is modelled as OPanic and is unreachable
+   ==================================================================================================== *)
+Section NoPanic.
+Variable c : ncfg.
+Variable wm : option hv.
+Variable shut : bool.
+
+Definition is_panic (o : out) : bool := match o with OPanic => true | _ => false end.
+Definition no_new_panic (x x' : tc) : Prop := In OPanic (tc_out x') -> In OPanic (tc_out x).
+
+Ltac nopanic_tac :=
+  unfold no_new_panic;
+  repeat match goal with
+  | |- context [if ?b then _ else _] => destruct b
+  | |- context [match ?b with Some _ => _ | None => _ end] => destruct b
+  | |- context [match ?b with (_, _) => _ end] => destruct b
+  | |- context [match ?b with [] => _ | _ :: _ => _ end] => destruct b
+  end;
+  let Hi := fresh "Hi" in
+  intros Hi;
+  cbn [tc_out tc_emit tc_set_t tc_set_v tc_bump tc_committed send_all In] in Hi;
+  repeat (destruct Hi as [Hi|Hi]; [discriminate Hi|]); try exact Hi.
+
+Lemma nnp_trans a b d : no_new_panic a b -> no_new_panic b d -> no_new_panic a d.
+Proof. unfold no_new_panic. auto. Qed.
+Lemma nnp_refl a : no_new_panic a a.
+Proof. unfold no_new_panic. auto. Qed.
+
+Lemma check_committed_nopanic x v h : no_new_panic x (check_committed c wm shut x v h).
+Proof. unfold check_committed. nopanic_tac. Qed.
+Lemma check_prepared_nopanic x v h : no_new_panic x (check_prepared c wm shut x v h).
+Proof.
+  unfold check_prepared.
+  destruct (match t_prepared (tc_t x) with Some pv => pv =? v | None => false end); [apply nnp_refl|].
+  destruct (is_preprepared (tc_t x) v h); [|apply nnp_refl]. destruct (isQ_ids _ _); [|apply nnp_refl].
+  eapply nnp_trans; [|apply check_committed_nopanic]. unfold send_all. nopanic_tac.
+Qed.
+Lemma process_pp_nopanic x r s b : no_new_panic x (process_pp c wm shut x r s b).
+Proof.
+  unfold process_pp. destruct (negb _); [apply nnp_refl|].
+  eapply nnp_trans; [|apply check_prepared_nopanic]. unfold send_all. nopanic_tac.
+Qed.
+Lemma on_elected_nopanic x v vs : no_new_panic x (on_elected c wm shut x v vs).
+Proof. unfold on_elected, init_view. nopanic_tac. Qed.
+Lemma check_elected_nopanic x v : no_new_panic x (check_elected c wm shut x v).
+Proof.
+  unfold check_elected. destruct (N.leb _ _); [apply nnp_refl|].
+  destruct (votes_of _ _); [apply nnp_refl|]. destruct (isQ_ids _ _); [apply on_elected_nopanic|apply nnp_refl].
+Qed.
+
+Theorem thandle_never_panics x m : no_new_panic x (thandle c wm shut x m).
+Proof.
+  destruct m; cbn [thandle].
+  - unfold handle_pp. repeat (match goal with |- no_new_panic _ (if ?b then _ else _) => destruct b; [apply nnp_refl|] end). apply process_pp_nopanic.
+  - unfold handle_p. repeat (match goal with |- no_new_panic _ (if ?b then _ else _) => destruct b; [apply nnp_refl|] end).
+    eapply nnp_trans; [|apply check_prepared_nopanic]. nopanic_tac.
+  - unfold handle_c. repeat (match goal with |- no_new_panic _ (if ?b then _ else _) => destruct b; [apply nnp_refl|] end).
+    eapply nnp_trans; [|apply check_committed_nopanic]. nopanic_tac.
+  - unfold handle_vc. repeat (match goal with |- no_new_panic _ (if ?b then _ else _) => destruct b; [apply nnp_refl|] end).
+    assert (A : no_new_panic x (check_elected c wm shut
+      (tc_set_t (store_vc (v_view v) v b (tc_t x))
+         (if has_vc (tc_t x) (v_view v) (s_id (v_snd v)) then x
+          else tc_emit (OStore T_VIEW_CHANGE (t_h (tc_t x)) (v_view v) 0 (s_id (v_snd v))) x)) (v_view v))).
+    { eapply nnp_trans; [|apply check_elected_nopanic]. nopanic_tac. }
+    destruct b, (v_proof v); try apply nnp_refl; try exact A. destruct (commitsTo _ _ _); [exact A|apply nnp_refl].
+  - unfold handle_nv. repeat (match goal with |- no_new_panic _ (if ?b then _ else _) => destruct b; [apply nnp_refl|] end).
+    assert (C : no_new_panic x (if negb (validate_pp c (tc_t x) pp pps) then x else
+                    match init_view nview (tc_set_t (set_latest nview (tc_t x)) x) with
+                    | None => tc_set_t (set_latest nview (tc_t x)) x
+                    | Some x1 => process_pp c wm shut x1 pp pps b end)).
+    { destruct (negb _); [apply nnp_refl|]. unfold init_view. destruct (N.ltb _ _); [unfold no_new_panic; cbn; auto|].
+      eapply nnp_trans; [|apply process_pp_nopanic]. nopanic_tac. }
+    destruct (latest_vote votes) as [lv|].
+    + destruct (v_proof lv); [|apply nnp_refl].
+      repeat (match goal with |- no_new_panic _ (if ?b then _ else _) => destruct b; [apply nnp_refl|] end). exact C.
+    + repeat (match goal with |- no_new_panic _ (if ?b then _ else _) => destruct b; [apply nnp_refl|] end). exact C.
+Qed.
+
+Theorem move_never_panics x h v : SInv c x -> no_new_panic x (move_to_next_leader c wm shut x h v).
+Proof.
+  intro I. unfold move_to_next_leader.
+  destruct (N.eqb_spec h (t_h (tc_t x))) as [Eh|Eh]; cbn [andb negb]; [|apply nnp_refl].
+  destruct (N.eqb_spec v (tc_v x)) as [Ev|Ev]; cbn [negb]; [|apply nnp_refl].
+  unfold init_view. destruct (N.ltb_spec (wrap64 (v + 1)) (tc_v x)) as [Hw|Hw]; [apply nnp_refl|].
+  assert (Ew : wrap64 (v + 1) = v + 1) by (apply wrap64_succ_ge; lia).
+  assert (Hsnd : snd (match t_prepared (tc_t x) with Some pv => extract_proof c (tc_t x) pv | None => (None, false) end) = false).
+  { destruct (t_prepared (tc_t x)) as [pv|] eqn:Ep; [|reflexivity].
+    assert (Hpv : pv < wrap64 (v + 1)).
+    { destruct (si_prep _ _ I pv Ep) as (e & b & G1 & _). destruct (si_pp _ _ I pv e G1) as [_ L]. lia. }
+    destruct (extract_proof_spec c x pv (wrap64 (v + 1)) I Ep Hpv) as (p & b & E & _). rewrite E. reflexivity. }
+  rewrite Hsnd. cbn [tc_v tc_emit tc_set_v].
+  destruct (N.eqb _ (c_me c)).
+  - eapply nnp_trans; [|apply check_elected_nopanic]. nopanic_tac.
+  - nopanic_tac.
+Qed.
+End NoPanic.
+
+Theorem trun_never_panics c wm shut H cm fresh lead evs : total cm < W64 -> isMember cm (c_me c) = true ->
+  Forall (tev_ok c H) evs -> ~ In OPanic (tc_out (trun c wm shut H cm fresh lead evs)).
+Proof.
+  intros Hw Hm F.
+  assert (G : forall pre, (exists post, evs = pre ++ post) -> ~ In OPanic (tc_out (trun c wm shut H cm fresh lead pre))).
+  { intros pre. induction pre as [|e pre IH] using rev_ind; intros [post E].
+    - unfold trun, tstart. cbn [fold_left]. unfold start_term, init_view. cbn [tc_v]. cbn [N.ltb N.compare].
+      repeat match goal with |- context [if ?b then _ else _] => destruct b end;
+        cbn [tc_out tc_emit tc_set_t tc_set_v tc_bump In]; intuition discriminate.
+    - assert (Fp : Forall (tev_ok c H) pre).
+      { rewrite E in F. apply Forall_app in F. destruct F as [F1 _]. apply Forall_app in F1. tauto. }
+      assert (Ex : exists post0, evs = pre ++ post0) by (exists (e :: post); rewrite E, <- app_assoc; reflexivity).
+      specialize (IH Ex).
+      unfold trun in *. rewrite fold_left_app. cbn [fold_left]. intro Hp. apply IH.
+      destruct e as [m wm' shut'|h v wm' shut']; cbn [tstep] in Hp.
+      + apply (thandle_never_panics c wm' shut' _ m Hp).
+      + apply (move_never_panics c wm' shut' _ h v); [|exact Hp]. apply (trun_sinv c wm shut H cm fresh lead pre Hw Hm Fp). }
+  apply (G evs). exists []. symmetry. apply app_nil_r.
+Qed.
+
+(* unreadable content bytes have no effect on the node beyond the main loop's routine context GC *)
+Lemma garbage_has_no_effect c n : step c n EGarbage = cancel_older (n_h n, 0) n.
+Proof. reflexivity. Qed.
